@@ -666,7 +666,7 @@ def parse(s, strictmode=True, expansionlimit=None, convertpos=False, proceedoner
     ef.visit(parts[-1])
     index = max(parts[-1].pos[1], ef.end) + 1
     while index < len(s):
-        part = _parser(s[index:], strictmode=strictmode, proceedonerror=proceedonerror).parse()
+        part = _parser(s[index:], strictmode=strictmode, expansionlimit=expansionlimit, proceedonerror=proceedonerror).parse()
 
         if not isinstance(part, ast.node):
             break
